@@ -2,8 +2,10 @@
 //! `Index::update`, through the node simulator, with lock-step reference
 //! models and whole-index audits after every block.
 
+pub mod configs;
 pub mod events;
 pub mod inscriptions;
+pub mod reorg;
 pub mod runes;
 pub mod runes_batch;
 pub mod sats;
